@@ -638,7 +638,20 @@ def run_prefix(plan, ctx):
         pre = bytes(r.choice(b"0123456789abcdefgG+- _\n\t\0xX\xff")
                     for _ in range(4))
         check_decode(ctx, pre + body, [2, 2, 9], "eof", "prefix-nonhex")
-    ctx.stat("prefixes_checked", len(alphabet) ** 4 // 64 + 300)
+    # every non-hex byte value in one position of prefixes whose frame is
+    # completely present (a malformed prefix that is *accepted* then shows as
+    # a frame, not as a short read): position = shard mod 4
+    pos = shard % 4
+    n_sub = 0
+    for bval in range(256):
+        if bval in alphabet:
+            continue
+        for base in (b"0000", b"0001", b"0004", b"0008", b"000c", b"0010"):
+            pre = base[:pos] + bytes([bval]) + base[pos + 1:]
+            check_decode(ctx, pre + body + body, [4, 3, 5], "eof",
+                         "prefix-nonhex")
+            n_sub += 1
+    ctx.stat("prefixes_checked", len(alphabet) ** 4 // 64 + 300 + n_sub)
 
 
 def run_oversize(plan, ctx):
